@@ -85,7 +85,8 @@ def same(a, b):
         return False
     if a[0] == 'exc':
         return a[1] == b[1]
-    return _plain(a[1]) == _plain(b[1])
+    x, y = _plain(a[1]), _plain(b[1])
+    return x == y or (isinstance(x, float) and isinstance(y, float) and x != x and y != y)
 
 
 def _plain(v):
